@@ -38,7 +38,7 @@
 (* The level-A observation o (BatchRouteOps) is updated wherever the outside  *)
 (* world sees something; the statements are checked on it (LevelA, AtExit)    *)
 (* and, independently, on the model's own state.                              *)
-EXTENDS BatchRouteOps, TLC
+EXTENDS BatchRouteOps, TLC, Json
 
 CONSTANTS Kind,          \* "kafka" | "pubsub" | "cloudwatch"
           BufSize,       \* capacity of buf
@@ -52,7 +52,8 @@ CONSTANTS Kind,          \* "kafka" | "pubsub" | "cloudwatch"
           AllowShutdown,
           Protocol,      \* "pinned" | "repaired"
           Mutant,        \* "" or a named deviation
-          Tolerated      \* clauses the configuration is known to break (the code as it is); {} otherwise
+          Tolerated,     \* clauses the configuration is known to break (the code as it is); {} otherwise
+          Record         \* keep the environment's history (scenario generation); FALSE for model checking
 
 VARIABLES buf,      \* Seq of items [id, sz, bad]
           dpc,      \* dispatcher: "idle" | "call" | "parked"
@@ -70,10 +71,12 @@ VARIABLES buf,      \* Seq of items [id, sz, bad]
           closed,   \* close(buf) done
           stopped,  \* pubsub: psTopic.Stop() has set the flag
           spc,      \* Shutdown(): "idle" | "call" | "stop" | "stopwait" | "wait" | "returned"
-          o
+          o,
+          hist      \* environment history (only when Record)
 
 vars == <<buf, dpc, ditem, nd, nbad, pc, x, pend, cnt, rret, nfaults, drops, errs, nout, nparse, gauge, lost, cfailed,
-          closed, stopped, spc, o>>
+          closed, stopped, spc, o, hist>>
+H(e) == IF Record THEN Append(hist, e) ELSE hist
 
 NoItem == [id |-> 0, sz |-> 0, bad |-> FALSE]
 Ids(s) == {s[i].id : i \in DOMAIN s}
@@ -85,7 +88,7 @@ Repaired == Protocol = "repaired"
 Init == /\ buf = <<>> /\ dpc = "idle" /\ ditem = NoItem /\ nd = 0 /\ nbad = 0
         /\ pc = "select" /\ x = NoItem /\ pend = <<>> /\ cnt = 0 /\ rret = "select" /\ nfaults = 0
         /\ drops = 0 /\ errs = 0 /\ nout = 0 /\ nparse = 0 /\ gauge = 0 /\ lost = {} /\ cfailed = {}
-        /\ closed = FALSE /\ stopped = FALSE /\ spc = "idle" /\ o = ObsInit
+        /\ closed = FALSE /\ stopped = FALSE /\ spc = "idle" /\ o = ObsInit /\ hist = <<>>
 
 ------------------------------------------------------------------------------
 (* Dispatch *)
@@ -94,7 +97,7 @@ DispatchCall(sz, bad) ==
   /\ nd' = nd + 1 /\ nbad' = IF bad THEN nbad + 1 ELSE nbad
   /\ ditem' = [id |-> nd + 1, sz |-> sz, bad |-> bad] /\ dpc' = "call"
   /\ gauge' = IF Blocking THEN gauge + 1 ELSE gauge            \* dispatchBlocking: gauge.Inc(1) before the send
-  /\ o' = ODisp(o, nd + 1, sz, bad, 0)
+  /\ o' = ODisp(o, nd + 1, sz, sz, bad, 0) /\ hist' = H([op |-> "d", sz |-> sz, bad |-> bad])
   /\ UNCHANGED <<buf, pc, x, pend, cnt, rret, nfaults, drops, errs, nout, nparse, lost, cfailed, closed, stopped, spc>>
 
 Blocks == Blocking \/ Mutant = "nb_no_default"
@@ -115,7 +118,7 @@ DispatchDo ==
              THEN drops' = drops /\ o' = ORet(o, ditem.id, "acc", Blocking, BufSize, 0)
              ELSE drops' = drops + 1 /\ o' = ORet(o, ditem.id, "drop", Blocking, BufSize, 0)
           /\ UNCHANGED <<buf, gauge>>
-  /\ UNCHANGED <<ditem, nd, nbad, pc, x, pend, cnt, rret, nfaults, errs, nout, nparse, cfailed, closed, stopped, spc>>
+  /\ UNCHANGED <<ditem, nd, nbad, pc, x, pend, cnt, rret, nfaults, errs, nout, nparse, cfailed, closed, stopped, spc, hist>>
 
 ------------------------------------------------------------------------------
 (* run loop *)
@@ -130,7 +133,7 @@ Take ==
      THEN buf' = Append(Tail(buf), ditem) /\ dpc' = "idle" /\ o' = ORet(o, ditem.id, "acc", Blocking, BufSize, 0)
      ELSE buf' = Tail(buf) /\ UNCHANGED <<dpc, o>>
   /\ Goto(IF Kind = "pubsub" THEN "pre" ELSE "parse")
-  /\ UNCHANGED <<ditem, nd, nbad, pend, cnt, nfaults, drops, errs, nout, nparse, lost, cfailed, closed, stopped, spc>>
+  /\ UNCHANGED <<ditem, nd, nbad, pend, cnt, nfaults, drops, errs, nout, nparse, lost, cfailed, closed, stopped, spc, hist>>
 
 LoopOnly == UNCHANGED <<buf, dpc, ditem, nd, nbad, nfaults, drops, gauge, lost, closed, stopped, spc>>
 
@@ -140,14 +143,14 @@ Pre ==
   /\ IF Size(pend) + x.sz >= FlushMax + (IF Mutant = "threshold_off_by_one" THEN 1 ELSE 0)
      THEN Flush(IF Mutant = "flush_drops_trigger" THEN "select" ELSE "parse")
      ELSE Goto("parse")
-  /\ UNCHANGED <<x, pend, cnt, errs, nout, nparse, cfailed, o>> /\ LoopOnly
+  /\ UNCHANGED <<x, pend, cnt, errs, nout, nparse, cfailed, o, hist>> /\ LoopOnly
 
 Parse ==
   /\ pc = "parse"
   /\ IF x.bad /\ Mutant # "bad_item_appended"
      THEN Goto("select") /\ nparse' = IF Kind = "pubsub" THEN nparse + 1 ELSE nparse
      ELSE Goto("append") /\ UNCHANGED nparse
-  /\ UNCHANGED <<x, pend, cnt, errs, nout, cfailed, o>> /\ LoopOnly
+  /\ UNCHANGED <<x, pend, cnt, errs, nout, cfailed, o, hist>> /\ LoopOnly
 
 CountFirst == Kind = "pubsub" \/ (Kind = "cloudwatch" /\ Repaired)
 Append1 ==
@@ -155,7 +158,7 @@ Append1 ==
   /\ pend' = Append(pend, x)
   /\ cnt' = IF CountFirst THEN cnt + 1 ELSE cnt
   /\ Goto(IF Kind = "pubsub" THEN "select" ELSE "check")
-  /\ UNCHANGED <<x, errs, nout, nparse, cfailed, o>> /\ LoopOnly
+  /\ UNCHANGED <<x, errs, nout, nparse, cfailed, o, hist>> /\ LoopOnly
 
 Threshold == FlushMax + (IF Mutant = "threshold_off_by_one" THEN 1 ELSE 0)
 Check ==
@@ -163,17 +166,17 @@ Check ==
   /\ LET after == IF Kind = "cloudwatch" /\ ~Repaired THEN "inc" ELSE "select"
          hit == IF Kind = "kafka" THEN Len(pend) = Threshold ELSE Len(pend) >= Threshold
      IN IF hit THEN Flush(after) ELSE Goto(after)
-  /\ UNCHANGED <<x, pend, cnt, errs, nout, nparse, cfailed, o>> /\ LoopOnly
+  /\ UNCHANGED <<x, pend, cnt, errs, nout, nparse, cfailed, o, hist>> /\ LoopOnly
 
 \* cloudwatch as it is: cnt++ after the flush that the item itself may have triggered
 Inc ==
   /\ pc = "inc" /\ cnt' = cnt + 1 /\ Goto("select")
-  /\ UNCHANGED <<x, pend, errs, nout, nparse, cfailed, o>> /\ LoopOnly
+  /\ UNCHANGED <<x, pend, errs, nout, nparse, cfailed, o, hist>> /\ LoopOnly
 
 Timer ==
-  /\ TimerOn /\ pc = "select"
+  /\ TimerOn /\ pc = "select" /\ Mutant # "no_timer_flush"
   /\ IF Kind = "pubsub" THEN cnt > 0 ELSE pend # <<>>        \* otherwise nothing happens
-  /\ Flush("select")
+  /\ Flush("select") /\ hist' = H([op |-> "t"])
   /\ UNCHANGED <<x, pend, cnt, errs, nout, nparse, cfailed, o>> /\ LoopOnly
 
 \* the receive reports !ok only when the closed channel is empty
@@ -181,7 +184,7 @@ OnClosed ==
   /\ pc = "select" /\ closed /\ (buf = <<>> \/ Mutant = "no_drain")
   /\ IF Mutant = "no_final_flush" \/ (Kind = "kafka" /\ pend = <<>>)
      THEN Goto("exited") ELSE Flush("exit")
-  /\ UNCHANGED <<x, pend, cnt, errs, nout, nparse, cfailed, o>> /\ LoopOnly
+  /\ UNCHANGED <<x, pend, cnt, errs, nout, nparse, cfailed, o, hist>> /\ LoopOnly
 
 Return == pc' = (IF rret = "exit" THEN "exited" ELSE rret) /\ UNCHANGED rret
 Reset == IF Mutant = "no_reset" THEN UNCHANGED <<pend, cnt>> ELSE pend' = <<>> /\ cnt' = 0
@@ -197,13 +200,13 @@ Pub ==
      THEN \* Publish on a stopped topic / PutMetricData without MetricData: an error, no request
           Return /\ pend' = <<>> /\ cnt' = 0 /\ cfailed' = cfailed \cup Ids(pend) /\ errs' = errs + 1
      ELSE Goto("send") /\ UNCHANGED <<pend, cnt, errs, cfailed>>
-  /\ UNCHANGED <<x, nout, nparse, o>> /\ LoopOnly
+  /\ UNCHANGED <<x, nout, nparse, o, hist>> /\ LoopOnly
 
 Outcomes == {"ok"} \cup (IF nfaults < MaxFaults THEN {"fail"} ELSE {})
 
 Send(st) ==
   /\ pc = "send" /\ st \in Outcomes
-  /\ o' = OSend(o, Kind, FlushMax, IdSeq(pend), st, ~TimerOn, 0)
+  /\ o' = OSend(o, Kind, FlushMax, IdSeq(pend), st, ~TimerOn, 0) /\ hist' = H([op |-> "f", st |-> st])
   /\ IF st = "ok"
      THEN /\ nout' = nout + (IF Kind = "kafka" THEN Len(pend) ELSE cnt)
           /\ Reset /\ Return /\ UNCHANGED <<errs, nfaults>>
@@ -215,8 +218,8 @@ Send(st) ==
   /\ UNCHANGED <<x, nparse, cfailed, buf, dpc, ditem, nd, nbad, drops, gauge, lost, closed, stopped, spc>>
 
 Sleep ==
-  /\ pc = "sleep" /\ Goto("send")
-  /\ UNCHANGED <<x, pend, cnt, errs, nout, nparse, cfailed, o>> /\ LoopOnly
+  /\ pc = "sleep" /\ Mutant # "no_retry" /\ Goto("send")
+  /\ UNCHANGED <<x, pend, cnt, errs, nout, nparse, cfailed, o, hist>> /\ LoopOnly
 
 ------------------------------------------------------------------------------
 (* Shutdown *)
@@ -225,23 +228,23 @@ SdOnly == UNCHANGED <<buf, dpc, ditem, nd, nbad, pc, x, pend, cnt, rret, nfaults
 \* (a Dispatch call in progress when buf is closed panics: the environment does not do that)
 SdCall ==
   /\ AllowShutdown /\ spc = "idle" /\ dpc = "idle"
-  /\ spc' = "call" /\ o' = OSdCall(o, 0) /\ UNCHANGED <<closed, stopped>> /\ SdOnly
+  /\ spc' = "call" /\ o' = OSdCall(o, 0) /\ hist' = H([op |-> "sd"]) /\ UNCHANGED <<closed, stopped>> /\ SdOnly
 
 SdClose ==
   /\ spc = "call" /\ closed' = TRUE /\ UNCHANGED stopped
   /\ IF Repaired THEN spc' = "wait" /\ UNCHANGED o
      ELSE IF Kind = "pubsub" THEN spc' = "stop" /\ UNCHANGED o
-     ELSE spc' = "returned" /\ o' = OSdRet(o, 0)
-  /\ SdOnly
+     ELSE spc' = "returned" /\ o' = OSdRet(o, Kind, 0)
+  /\ SdOnly /\ UNCHANGED hist
 
 \* pubsub as it is: psTopic.Stop() sets the flag, flushes the bundler and waits for the publish in flight
-SdStop == spc = "stop" /\ stopped' = TRUE /\ spc' = "stopwait" /\ UNCHANGED <<closed, o>> /\ SdOnly
-SdStopRet == spc = "stopwait" /\ pc # "send" /\ spc' = "returned" /\ o' = OSdRet(o, 0) /\ UNCHANGED <<closed, stopped>> /\ SdOnly
+SdStop == spc = "stop" /\ stopped' = TRUE /\ spc' = "stopwait" /\ UNCHANGED <<closed, o, hist>> /\ SdOnly
+SdStopRet == spc = "stopwait" /\ pc # "send" /\ spc' = "returned" /\ o' = OSdRet(o, Kind, 0) /\ UNCHANGED <<closed, stopped, hist>> /\ SdOnly
 
 \* repaired: wait for the run loop (pubsub: then stop the topic)
 SdWait ==
-  /\ spc = "wait" /\ pc = "exited" /\ spc' = "returned" /\ o' = OSdRet(o, 0)
-  /\ stopped' = (Kind = "pubsub") /\ UNCHANGED closed /\ SdOnly
+  /\ spc = "wait" /\ pc = "exited" /\ spc' = "returned" /\ o' = OSdRet(o, Kind, 0)
+  /\ stopped' = (Kind = "pubsub") /\ UNCHANGED <<closed, hist>> /\ SdOnly
 
 ------------------------------------------------------------------------------
 LoopStep == Take \/ Pre \/ Parse \/ Append1 \/ Check \/ Inc \/ Timer \/ OnClosed \/ Pub \/ (\E st \in Outcomes : Send(st)) \/ Sleep
@@ -260,10 +263,21 @@ InFlight == Ids(buf) \cup InHand \cup Ids(pend)
 
 \* every clause of the level-A statement, on the observation (Tolerated: what the code as it is breaks)
 LevelA == ViolatedClauses(o) \subseteq Tolerated
-\* the end of an execution: the loop has returned and no call is in progress
-AtExit == (pc = "exited" /\ dpc = "idle") =>
-            ViolatedClauses(OFinal([o EXCEPT !.exited = TRUE], Kind, Blocking, drops, errs, nout,
-                                   IF Kind = "pubsub" THEN nparse ELSE -1, gauge, 0)) \subseteq Tolerated
+\* the end of an execution: the loop has returned and no call is in progress (one invariant per clause, so that
+\* TLC names the clause)
+ExitViol == IF pc = "exited" /\ dpc = "idle"
+            THEN ViolatedClauses(OFinal([o EXCEPT !.exited = TRUE], Kind, Blocking, drops, errs, nout,
+                                        IF Kind = "pubsub" THEN nparse ELSE -1, gauge, 0)) \ Tolerated
+            ELSE {}
+AtExit == ExitViol = {}
+ExitNothingLeftBehind == "NothingLeftBehind" \notin ExitViol
+ExitAllTransmitted == "AllTransmitted" \notin ExitViol
+ExitErrsCounted == "ErrsCounted" \notin ExitViol
+ExitSpuriousError == "SpuriousError" \notin ExitViol
+ExitOutCounted == "OutCounted" \notin ExitViol
+ExitDropsCounted == "DropsCounted" \notin ExitViol
+ExitParseCounted == "ParseCounted" \notin ExitViol
+ExitGaugeZero == "GaugeZero" \notin ExitViol
 \* an accepted parsable item is queued, in hand, pending, or done with - or it went down with a failure that the
 \* route counted (cfailed: only where the code as it is fails on the client side)
 NeverAbandoned == \A id \in Want(o) : id \in InFlight \/ id \in Done(o, Kind) \/ id \in cfailed
@@ -284,5 +298,11 @@ ShutdownWaitsForLoop == spc = "returned" => pc = "exited"
 \* liveness: finitely many failures, fair scheduling
 LoopExits == (spc = "call") ~> (pc = "exited")
 Unparks == (dpc = "parked") ~> (dpc = "idle")
-TimerFlushes == \A id \in 1 .. MaxItems : (id \in Want(o)) ~> (id \in Done(o, Kind) \/ id \in cfailed)
+\* (Dispatch calls are finitely many and "done with" is stable: the same as  \A id : id \in Want ~> id done with)
+TimerFlushes == <>[](Want(o) \subseteq (Done(o, Kind) \cup cfailed))
+
+------------------------------------------------------------------------------
+(* scenario generation (simulation mode, Record = TRUE): the environment history of finished behaviours *)
+Terminal == pc = "exited" /\ dpc = "idle" /\ nd > 0
+Emit == Terminal => PrintT("@@S " \o ToJson([hist |-> hist]))
 =============================================================================
